@@ -145,6 +145,8 @@ spec_to_json(JW &w, const JobSpec &s)
         w.num("mis0", s.mis[0]).num("mis1", s.mis[1]);
         w.unum("seed", s.seed).unum("key_seed", s.key_seed);
         w.num("viol", s.viol).num("viol2", s.viol2).num("pon_pli", s.pon_pli).num("minimal", s.minimal);
+        if (s.scatter)
+                w.num("scatter", s.scatter);
         if (!s.cuts.empty()) {
                 w.arr("cuts");
                 for (auto c : s.cuts)
@@ -187,6 +189,7 @@ spec_from_json(const JVal &v)
         s.viol2 = (uint16_t) v.geti("viol2");
         s.pon_pli = (uint32_t) v.geti("pon_pli");
         s.minimal = (uint8_t) v.geti("minimal");
+        s.scatter = (uint8_t) v.geti("scatter");
         JP c = v.get("cuts");
         if (c)
                 for (auto &x : c->a)
